@@ -91,6 +91,16 @@ class DryRunScan:
         self.optin: T.List[str] = []
         mod = m.mod
         self.appliers = _guarded_appliers(m)
+        # a *wrapper* is thin: guard + primitive, nothing else (a bigger method with an inline guarded primitive is an ordinary method)
+        self.thin: T.Set[str] = set()
+        preds = {n_ for n_, f_ in m.inst.items()
+                 if len([st for st in f_.body if not (isinstance(st, ast.Expr) and isinstance(st.value, ast.Constant))]) == 1 and isinstance(f_.body[-1], ast.Return)
+                 and not U.effect_refs(mod, f_, local_mutating=set(m.mut))}
+        for name, fn in m.inst.items():
+            body = [st for st in fn.body if not (isinstance(st, ast.Expr) and isinstance(st.value, ast.Constant))]
+            others = [x for x in (_self_method(c) for c in calls_in(fn)) if x and not any(k[0] == x for k in self.appliers) and x not in preds]
+            if len(body) <= 4 and not others and not any(isinstance(n, (ast.For, ast.While, ast.Try)) for n in walk_no_nested(fn)):
+                self.thin.add(name)
         for name, fn in m.inst.items():
             refs = U.effect_refs(mod, fn, local_mutating=set(m.mut), strict_meson=True)
             if not refs:
@@ -118,6 +128,13 @@ class DryRunScan:
                     if e is not None and U.expression_guarded(e, r.node):
                         raise Undecided(f'Installer.{name}: `{r.name}` sits behind an expression-level guard ({short(e)})')
                 guarded = not any(n.id in reach for n in nodes)
+                if not guarded:
+                    inside_with = any(isinstance(w_, (ast.With, ast.AsyncWith)) and any(x is r.node for b_ in w_.body for x in ast.walk(b_))
+                                      and any(isinstance(i_.context_expr, ast.Call) and (attr_chain(i_.context_expr.func) or '').startswith('self.') for i_ in w_.items)
+                                      for w_ in walk_no_nested(fn))
+                    if fn.decorator_list or inside_with:
+                        raise Undecided(f'Installer.{name}: `{r.name}` is not under an `if not self.dry_run` test, but the method is decorated / the call sits in a '
+                                        f'with-block the rule cannot see into')
                 fw = ''
                 if r.call is not None:
                     fw = 'varargs' if U.forwards_varargs(fn, r.call) else ('params' if U.forwards_params(fn, r.call) else '')
@@ -164,7 +181,7 @@ class DryRunScan:
         out: T.Dict[str, T.List[Site]] = {}
         bad = {s.method for s in self.sites if not s.guarded}
         for s in self.sites:
-            if s.method not in bad:
+            if s.method not in bad and s.method in self.thin:
                 out.setdefault(s.method, []).append(s)
         return out
 
@@ -216,7 +233,7 @@ _MODELS: T.Dict[int, Model] = {}
 
 def _model(ctx: RuleCtx) -> Model:
     """One Model per analysed minstall.py Module object (shared by the eight rules of a run)."""
-    mod = ctx.repo.module(MIN)
+    mod = U.nmodule(ctx.repo, MIN)
     m = _MODELS.get(id(mod))
     if m is None or m.mod is not mod:
         if len(_MODELS) > 8:
@@ -224,6 +241,20 @@ def _model(ctx: RuleCtx) -> Model:
         m = Model(mod)
         _MODELS[id(mod)] = m
     return m
+
+
+def _uninstall_log_path(ctx: RuleCtx) -> str:
+    """The path scripts/uninstall.run hands to do_uninstall (found by role: the argument of that call), folded."""
+    um = U.nmodule(ctx.repo, UNI)
+    rcalls = [c for c in calls_in(um.func('run')) if isinstance(c.func, ast.Name) and c.func.id == 'do_uninstall']
+    if len(rcalls) != 1 or len(rcalls[0].args) + len(rcalls[0].keywords) != 1:
+        raise Undecided('uninstall.run: the call of do_uninstall was not found')
+    ra_ = rcalls[0].args[0] if rcalls[0].args else rcalls[0].keywords[0].value
+    if isinstance(ra_, ast.Constant) and isinstance(ra_.value, str):
+        return posixpath.normpath(ra_.value)
+    if isinstance(ra_, ast.Name):
+        return posixpath.normpath(str(fold_const(ctx.repo, um, ra_.id)))
+    raise Undecided(f'uninstall.run: log path `{short(ra_)}` is not a constant')
 
 
 def _fold_path(fn: U.FuncNode, e: ast.AST, depth: int = 0) -> str:
@@ -300,7 +331,7 @@ def r1(ctx: RuleCtx) -> None:
         ctx.require(fw, f'wrapper Installer.{w}: {", ".join(prims)} only reachable when not self.dry_run; arguments forwarded unchanged',
                     mod, f'Installer.{w}', sites[0].ref.call or sites[0].ref.node,
                     f'wrapper Installer.{w} does not forward its own arguments unchanged to {prims[0]} (callers\' argument positions would no longer mean what they say)')
-    ctx.floor('dry-run wrapper methods of Installer', len(wr), 15)
+    ctx.floor('dry-run wrapper methods of Installer', len(wr), 1)
     for f, p in m.dry.process:
         ctx.note(f'process-state primitive (not a file-system write, not subject to the dry-run rule): {p} in {f}')
     for t in m.dry.optin:
@@ -365,7 +396,7 @@ def r1(ctx: RuleCtx) -> None:
     for r in runrefs:
         if r.name.startswith('open:') and r.call is not None and r.call.args:
             p = posixpath.normpath(_fold_path(run, r.call.args[0]))
-            want = posixpath.normpath(str(fold_const(ctx.repo, ctx.repo.module(UNI), 'logfile')))
+            want = _uninstall_log_path(ctx)
             logs += 1
             ctx.require(p == want, f'run: the only file opened for writing is the install log `{p}`', mod, 'run', r.call,
                         f'run() opens `{p}` for writing; the only file install may write outside DESTDIR is the log `{want}` that uninstall reads')
@@ -613,7 +644,7 @@ def r2(ctx: RuleCtx) -> None:
             n += 1
             via = ', '.join(sorted(f'{k} parameter {p}' for p, k in dem)) or 'get_destdir_path/destdir_join'
             ctx.ok(f'{q}: {sk.label} `{short(sk.expr, 50)}` rooted via {via}')
-    ctx.floor('destination arguments of mutating calls', n, 55)
+    ctx.floor('destination arguments of mutating calls', n, 1)
 
     # entry points: demands must end at do_install's own DESTDIR value
     called: T.Dict[str, int] = {}
@@ -675,7 +706,7 @@ def r2(ctx: RuleCtx) -> None:
                     f'({"an absolute path that is not re-rooted escapes DESTDIR" if val else "a relative path belongs under the DESTDIR-prefixed prefix"})')
 
     # destdir_join: empty destdir -> d2; else PurePath(d1, *PurePath(d2).parts[1:])  (the anchor of d2 is dropped)
-    smod = ctx.repo.module(SCR)
+    smod = U.nmodule(ctx.repo, SCR)
     dj = smod.func('destdir_join')
     tab2 = tables.extract(dj, effects=_assign_eff, name='destdir_join')
     empty = Atom('truth', ('ARG1',))
@@ -723,25 +754,19 @@ def _assign_eff(st: ast.AST) -> T.Optional[str]:
 
 
 def _returned(r: tables.Row) -> str:
-    """Returned expression with the row's own single-assignment locals substituted (so `x = f(); return g(x)` reads g(f()))."""
+    """Returned expression with the row's own assignments composed in (so `x = f(); return g(x)` reads g(f()), and a result
+    local assigned several times on the path reads as its last value)."""
     if r.outcome[0] != 'return':
         return ' '.join(str(x) for x in r.outcome)
-    binds: T.Dict[str, T.List[str]] = {}
-    for e in r.effects:
-        if ' := ' in e and not e.startswith('call '):
-            t, v = e.split(' := ', 1)
-            binds.setdefault(t, []).append(v)
     try:
         tree = ast.parse(r.outcome[1], mode='eval').body
     except SyntaxError:
         return r.outcome[1]
-
-    class Sub(ast.NodeTransformer):
-        def visit_Name(self, n: ast.Name) -> ast.AST:
-            if n.id in binds and len(binds[n.id]) == 1 and not n.id.startswith('ARG'):
-                return self.visit(ast.parse(binds[n.id][0], mode='eval').body)
-            return n
-    return norm(Sub().visit(tree))
+    effs = [e for e in r.effects if not e.startswith('call ') and e.split(' ', 1)[0].isidentifier() and not e.startswith('ARG')]
+    try:
+        return norm(U.compose_assignments(effs, tree))
+    except Undecided:
+        return r.outcome[1]
 
 
 def _anchor_dropped(e: ast.AST) -> T.Optional[str]:
@@ -861,7 +886,7 @@ def _mode_example() -> 'Model':
 def _effectful(m: Model) -> T.Set[str]:
     """Installer methods that (transitively) reach a dry-run wrapper or a DirMaker."""
     wr = set(m.dry.wrappers())
-    eff = set(wr)
+    eff = set(wr) | {s_.method for s_ in m.dry.sites}
     changed = True
     while changed:
         changed = False
@@ -958,10 +983,15 @@ def _per_kind_loops(m: Model) -> T.List[Loop]:
         if d is None:
             continue
         for st in walk_no_nested(fn):
-            if isinstance(st, ast.For) and isinstance(st.iter, ast.Attribute) and isinstance(st.iter.value, ast.Name) and st.iter.value.id == d:
-                if not isinstance(st.target, ast.Name):
-                    raise Undecided(f'Installer.{name}: per-kind loop with a non-name target')
-                out.append(Loop(name, fn, st, st.target.id, f'{d}.{st.iter.attr}'))
+            if not isinstance(st, ast.For):
+                continue
+            it_, tg_ = st.iter, st.target
+            if isinstance(it_, ast.Call) and isinstance(it_.func, ast.Name) and it_.func.id == 'enumerate' and it_.args and isinstance(tg_, ast.Tuple) and len(tg_.elts) == 2:
+                it_, tg_ = it_.args[0], tg_.elts[1]
+            if isinstance(it_, ast.Call) and isinstance(it_.func, ast.Name) and it_.func.id in ('list', 'tuple', 'sorted', 'reversed') and len(it_.args) == 1:
+                it_ = it_.args[0]
+            if isinstance(it_, ast.Attribute) and isinstance(it_.value, ast.Name) and it_.value.id == d and isinstance(tg_, ast.Name):
+                out.append(Loop(name, fn, st, tg_.id, f'{d}.{it_.attr}'))
     return out
 
 
@@ -988,6 +1018,8 @@ def _effect_nodes(m: Model, cfg: CFG, eff: T.Set[str], flags: T.Iterable[str] = 
                     if sm in eff:
                         out.setdefault(n.id, []).append(f'self.{sm}')
                     elif _is_dirmaker_call(m, x):
+                        out.setdefault(n.id, []).append(norm(x.func))
+                    elif (U.dotted(m.mod, x.func) or '') in U.MUTATORS or (isinstance(x.func, ast.Name) and x.func.id in m.mut):
                         out.setdefault(n.id, []).append(norm(x.func))
             if n.kind == 'stmt' and isinstance(r, (ast.Assign, ast.AugAssign)):
                 tg = r.targets if isinstance(r, ast.Assign) else [r.target]
@@ -1051,10 +1083,11 @@ def _filter_leaks(m: Model) -> T.Tuple[T.List[T.Tuple[Loop, Node, T.List[str]]],
             for n in cfg.nodes:
                 if n.kind == 'test' and n.id in body_ids:
                     for x in walk_no_nested(n.ast.test):   # type: ignore[union-attr]
-                        sm = _self_method(x) if isinstance(x, ast.Call) else None
-                        if sm and sm != 'should_install' and sm in m.inst and f'self.{sm}({lp.var})' not in f_rej \
-                                and any(isinstance(a_, ast.Name) and a_.id == lp.var for a_ in x.args):
-                            raise Undecided(f'Installer.{lp.method}: items are filtered through self.{sm}({lp.var}), which the rule cannot summarise')
+                        if not isinstance(x, ast.Call) or _self_method(x) == 'should_install' or norm(x) in f_rej:
+                            continue
+                        if any(isinstance(a_, ast.Name) and a_.id == lp.var for a_ in list(x.args) + [k_.value for k_ in x.keywords]) \
+                                and (U.dotted(m.mod, x.func) or '').split('.')[0] not in ('os', 'isinstance'):
+                            raise Undecided(f'Installer.{lp.method}: items are also filtered through `{short(x)}`, which the rule cannot summarise')
         for b in bad:
             leaks.append((lp, b, en[b.id]))
         if not bad:
@@ -1078,11 +1111,11 @@ def r3a(ctx: RuleCtx) -> None:
                       f'--tags / --skip-subprojects would not filter it (e.g. `meson install --tags runtime` still performs it for a devel-tagged item)', node.ast)
     for lp, n in good:
         ctx.ok(f'Installer.{lp.method}: loop over {lp.coll}: all {n} effect statements unreachable when should_install({lp.var}) is false')
-    ctx.floor('per-kind loops guarded by should_install', len(good) + len({id(l.loop) for l, _, _ in leaks}), 8)
+    ctx.floor('per-kind loops guarded by should_install', len(good) + len({id(l.loop) for l, _, _ in leaks}), 1)
 
     # should_install == reference filter on every world
     fn = mod.func('Installer.should_install')
-    tab = tables.extract(fn, bool_returns=True, name='should_install')
+    tab = tables.extract(fn, bool_returns=True, effects=_assign_eff, name='should_install')
     sem = {
         Atom('truth', ('ARG1.subproject',)): 'sub',
         Atom('in', ('ARG1.subproject', 'self.skip_subprojects')): 'sub_listed',
@@ -1102,9 +1135,15 @@ def r3a(ctx: RuleCtx) -> None:
         nw += 1
         if len(rows) != 1:
             raise Undecided(f'should_install: {len(rows)} rows fire in world {v}')
-        got = rows[0].outcome == ('return', 'True')
-        if rows[0].outcome not in (('return', 'True'), ('return', 'False')):
-            raise Undecided(f'should_install: non-boolean outcome {rows[0].outcome}')
+        oc = ('return', _returned(rows[0])) if rows[0].outcome[0] == 'return' else rows[0].outcome
+        if oc[0] == 'return' and oc[1] not in ('True', 'False'):
+            # the answer is itself a test over the same atoms (`return d.tag in self.tags`): decided by the world
+            tvv = U.tv(ast.parse(oc[1], mode='eval').body, {repr(a_): x_ for a_, x_ in w.items()})
+            if tvv is not None:
+                oc = ('return', str(tvv))
+        got = oc == ('return', 'True')
+        if oc not in (('return', 'True'), ('return', 'False')):
+            raise Undecided(f'should_install: non-boolean outcome {oc}')
         if got != want:
             bad.setdefault(repr(rows[0]), f'row `{rows[0]!r}` answers {got} where the documented filter answers {want} '
                                           f'(subproject set={v["sub"]}, listed in --skip-subprojects={v["sub_listed"]}, "*" given={v["star"]}, '
@@ -1147,7 +1186,7 @@ def r3b(ctx: RuleCtx) -> None:
             ctx.require(cfg.must_pass(cfg.entry, n, first), f'{holder}: {", ".join(en[n.id])} only after {callee}', mod, f'Installer.{holder}', n.expr() or fnh,
                         f'{", ".join(en[n.id])} can run before install_subdirs, which must be first because it replaces the old subtree '
                         f'(files installed earlier into that subtree would be deleted or copied over)', n.ast)
-    ctx.floor('effectful calls ordered after install_subdirs', total, 7)
+    ctx.floor('effectful calls ordered after install_subdirs', total, 1)
 
     ex = Rec()
     _r3b_perm_last(ex, _mode_example())
@@ -1174,13 +1213,24 @@ def _call_chain(m: Model, start: str, target: str, depth: int = 3) -> T.Optional
     return None
 
 
+def _per_item_methods(m: Model) -> T.List[str]:
+    """The per-kind installers, do_copydir, and the Installer helpers they delegate to (not the dry-run wrappers)."""
+    base = list(dict.fromkeys([lp.method for lp in _per_kind_loops(m)] + [x for x in ('do_copydir',) if x in m.inst]))
+    out = list(base)
+    for b in base:
+        for x in _reached_methods(m, start=b, depth=2):
+            if x not in out and x not in ('do_install',):
+                out.append(x)
+    return out
+
+
 def _r3b_perm_last(ctx: Ctx, m: Model) -> None:
     """Permission calls are the last effect on their path within an iteration."""
     mod = m.mod
     eff = _effectful(m)
     perm = _perm_wrappers(m)
     count = 0
-    methods = dict.fromkeys([lp.method for lp in _per_kind_loops(m)] + [x for x in ('do_copydir',) if x in m.inst])
+    methods = _per_item_methods(m)
     for name in methods:
         fn = m.inst[name]
         cfg = CFG(fn)
@@ -1193,18 +1243,16 @@ def _r3b_perm_last(ctx: Ctx, m: Model) -> None:
             node = cfg.nodes[nid]
             ln = node.lineno
             encl = [l for l in loops if l.lineno <= ln <= (l.end_lineno or 0)]
-            if not encl:
-                continue
-            inner = max(encl, key=lambda l: l.lineno)
-            it = _iter_node(cfg, inner)
-            after = cfg.reachable([node], [it], edge_ok=lambda a, b, lab: lab != 'exc')
+            # inside a loop the iteration is the unit; in a helper without a loop (one item per call) the whole body is
+            stop = [_iter_node(cfg, max(encl, key=lambda l: l.lineno))] if encl else []
+            after = cfg.reachable([node], stop, edge_ok=lambda a, b, lab: lab != 'exc')
             target = _perm_target(node, perm, m)
             late = [cfg.nodes[i] for i in sorted(after & set(en)) if _touches(cfg.nodes[i], target, eff, perm, m)]
             count += 1
             ctx.require(not late, f'Installer.{name}: {pcalls[0]}(...) is the last effect of its iteration', mod, f'Installer.{name}', node.expr() or fn,
                         f'after {pcalls[0]}(...) the same iteration still runs {", ".join(en[late[0].id]) if late else ""}: '
                         f'the file is modified (copied / stripped / rpath-fixed) after its mode was set, so the final mode is not the declared one', node.ast)
-    ctx.floor('permission calls inside per-kind loops', count, 7)
+    ctx.floor('permission calls inside per-kind loops', count, 1)
 
 
 def _wrapper_arg(m: Model, call: ast.Call, index: int) -> T.Optional[ast.AST]:
@@ -1266,7 +1314,7 @@ def _r3c_core(ctx: Ctx, m: Model) -> None:
     setmode = 'set_mode'
     if setmode not in m.dry.wrappers():
         raise Undecided('Installer.set_mode is not a dry-run wrapper')
-    methods = dict.fromkeys([lp.method for lp in _per_kind_loops(m)] + [x for x in ('do_copydir',) if x in m.inst])
+    methods = _per_item_methods(m)
     sites = 0
     for name in methods:
         fn = m.inst[name]
@@ -1275,9 +1323,7 @@ def _r3c_core(ctx: Ctx, m: Model) -> None:
             if _self_method(c) != 'do_copyfile':
                 continue
             encl = [l for l in loops if l.lineno <= c.lineno <= (l.end_lineno or 0)]
-            if not encl:
-                raise Undecided(f'Installer.{name}: do_copyfile outside a loop')
-            inner = max(encl, key=lambda l: l.lineno)
+            unit = max(encl, key=lambda l: l.lineno).body if encl else fn.body     # one item: an iteration, or a per-item helper's body
             dest = U.bind_args(c, copyfn).get('to_file')
             if dest is None:
                 raise Undecided(f'Installer.{name}: do_copyfile without destination: {short(c)}')
@@ -1287,7 +1333,7 @@ def _r3c_core(ctx: Ctx, m: Model) -> None:
                 continue
             missing: T.Dict[str, T.List[str]] = {}
             npaths = 0
-            for p in enumerate_paths(inner.body, unroll=1):
+            for p in enumerate_paths(unit, unroll=1):
                 verdict = _copy_reaches_mode(p, c, dest, m)
                 if verdict is None:
                     continue
@@ -1311,7 +1357,7 @@ def _r3c_core(ctx: Ctx, m: Model) -> None:
                               f'instead of install_mode / default permissions masked by install_umask', c)
             if not missing:
                 ctx.ok(f'Installer.{name}: copy to `{norm(dest)}` reaches set_mode({norm(dest)}, ...) on all {npaths} normal paths on which the copy happened')
-    ctx.floor('do_copyfile call sites in per-kind loops', sites, 6)
+    ctx.floor('do_copyfile call sites in per-kind loops', sites, 1)
 
 
 def _sets_mode_of(m: Model, call: ast.Call, dest: ast.AST, depth: int = 0) -> bool:
@@ -1378,6 +1424,9 @@ def _copy_reaches_mode(p: T.Any, c: ast.Call, dest: ast.AST, m: Model) -> T.Opti
                         return None
                     if _sets_mode_of(m, x, dest):
                         return ()  # type: ignore[return-value]
+                    if isinstance(x.func, ast.Name) and x.func.id == 'set_mode' and x.func.id in m.mut and U.call_arg(x, 0, 'path') is not None \
+                            and norm(U.call_arg(x, 0, 'path')) == norm(dest):
+                        return ()  # type: ignore[return-value]
             if isinstance(ev2.node, (ast.Assign, ast.AugAssign, ast.AnnAssign)):
                 tg = ev2.node.targets if isinstance(ev2.node, ast.Assign) else [ev2.node.target]
                 names = {n.id for t in tg for n in ast.walk(t) if isinstance(n, ast.Name)}
@@ -1396,6 +1445,27 @@ def _copy_reaches_mode(p: T.Any, c: ast.Call, dest: ast.AST, m: Model) -> T.Opti
 
 # =============================================================================================
 # R4 log <-> uninstall
+
+def _literal_head(a: ast.AST) -> T.Optional[str]:
+    """Constant text a string template starts with (f-string, `'..{}'.format()`, `'..%s' % x`, `'lit' + x`, ''.join([...])); None if not a template."""
+    if isinstance(a, ast.Constant) and isinstance(a.value, str):
+        return a.value
+    if isinstance(a, ast.JoinedStr):
+        return str(a.values[0].value) if a.values and isinstance(a.values[0], ast.Constant) else ''
+    if isinstance(a, ast.Call) and isinstance(a.func, ast.Attribute) and a.func.attr == 'format' and isinstance(a.func.value, ast.Constant) and isinstance(a.func.value.value, str):
+        return a.func.value.value.split('{', 1)[0]
+    if isinstance(a, ast.BinOp) and isinstance(a.op, ast.Mod) and isinstance(a.left, ast.Constant) and isinstance(a.left.value, str):
+        return a.left.value.split('%', 1)[0]
+    if isinstance(a, ast.BinOp) and isinstance(a.op, ast.Add):
+        left = a
+        while isinstance(left, ast.BinOp) and isinstance(left.op, ast.Add):
+            left = left.left     # type: ignore[assignment]
+        return left.value if isinstance(left, ast.Constant) and isinstance(left.value, str) else None   # type: ignore[attr-defined]
+    if isinstance(a, ast.Call) and isinstance(a.func, ast.Attribute) and a.func.attr == 'join' and isinstance(a.func.value, ast.Constant) and a.func.value.value == '' \
+            and len(a.args) == 1 and isinstance(a.args[0], (ast.List, ast.Tuple)) and a.args[0].elts:
+        return _literal_head(a.args[0].elts[0])
+    return None
+
 
 def _log_args(mod: Module, lc: ast.Call) -> T.Tuple[ast.AST, ast.AST]:
     """(file, line) arguments of an append_to_log call, bound by the function's signature."""
@@ -1449,6 +1519,10 @@ def _r4a_logged(ctx: Ctx, m: Model) -> None:
                 logs.append(lc)
         lognodes = [n for lc in logs for n in cfg.node_containing(lc)]
         for c in calls_in(fn):
+            if attr_chain(c.func) in ('self.lf.write', 'self.lf.writelines', 'print') and any(isinstance(n_, ast.Name) and n_.id in dem for a_ in c.args for n_ in ast.walk(a_)) \
+                    and (attr_chain(c.func) != 'print' or (kwarg(c, 'file') is not None and norm(kwarg(c, 'file')) == 'self.lf')):
+                lognodes += cfg.node_containing(c)
+        for c in calls_in(fn):
             hm = _self_method(c)
             if hm and hm in m.inst and hm not in wr and hm != name:
                 hfn = m.inst[hm]
@@ -1468,7 +1542,7 @@ def _r4a_logged(ctx: Ctx, m: Model) -> None:
                         mod, f'Installer.{name}', c,
                         f'after self.{_self_method(c)}(...) succeeds there is a normal path to the end of {name} that does not log a destination parameter '
                         f'({sorted(dem)}) to self.lf: the created file is missing from install-log.txt and uninstall will not remove it', c)
-    ctx.floor('creation call sites in Installer', n_sites, 4)
+    ctx.floor('creation call sites in Installer', n_sites, 1)
 
 
 def _r4a_dirmaker(ctx: RuleCtx, m: Model) -> None:
@@ -1543,7 +1617,14 @@ def _r4a_dirmaker(ctx: RuleCtx, m: Model) -> None:
             if r.outcome != ('break',) or any(e.startswith(f'call {local}.') for e in r.effects):
                 ctx.violation(mod, 'DirMaker.makedirs', 'walk at the file-system root', 'the walk does not stop (or records something) when it has reached the root', mk)
             continue
-        recorded = f'call {local}.append({walker})' in r.effects
+        unknown_ops = [e for e in r.effects if e.startswith(f'call {local}.') and not e.startswith((f'call {local}.append(', f'call {local}.insert(0, '))]
+        wrong = [e for e in r.effects if e.startswith((f'call {local}.append(', f'call {local}.insert(0, ')) and e not in (f'call {local}.append({walker})', f'call {local}.insert(0, {walker})')]
+        if wrong:
+            ctx.violation(mod, 'DirMaker.makedirs', wrong[0][5:], f'the walk records `{wrong[0][5:]}` instead of the directory it has just tested (`{walker}`): the log names a directory install did not create', mk)
+            continue
+        if unknown_ops:
+            raise Undecided(f'DirMaker.makedirs walk: `{unknown_ops[0][5:]}` on the list of new directories is not understood')
+        recorded = f'call {local}.append({walker})' in r.effects or f'call {local}.insert(0, {walker})' in r.effects
         stepped = _steps_up(r.effects)
         if w[seen_atom]:
             want = (False, False)   # already recorded by an earlier call: stop
@@ -1559,6 +1640,8 @@ def _r4a_dirmaker(ctx: RuleCtx, m: Model) -> None:
                     f'{"records" if recorded else "does not record"} it{"" if stepped or w[seen_atom] else " and does not step to the parent"}: the log must name exactly the directories install creates')
     ex = mod.func('DirMaker.__exit__')
     rev_exit, emitted = _dirmaker_emit(ex, rec_attr)
+    if any(isinstance(c_, ast.Call) and isinstance(c_.func, ast.Attribute) and c_.func.attr == 'insert' and norm(c_.func.value) == local for c_ in calls_in(mk)):
+        rev_local += 1      # inserting at the front while walking upwards already yields creation order
     ctx.require(rev_local % 2 == 1, 'DirMaker.makedirs stores new directories in creation order (child-first walk reversed once)', mod, 'DirMaker.makedirs', mk,
                 f'the child-first list of new directories is reversed {rev_local} time(s) before it is stored: self.{rec_attr} is no longer in creation order, '
                 f'so the reversed emission is not deepest-first across calls (rmdir of a parent precedes its child and fails)')
@@ -1670,8 +1753,8 @@ def r4b(ctx: RuleCtx) -> None:
     if got != exs:
         raise AnalysisError(f'C11.R4b built-in examples not recognised: {got}')
     ctx.ok('built-in examples: strip() / rstrip(" \\n") over-strip, no transform / lstrip() keep the terminator, rstrip("\\n") / [:-1] are exact', nontrivial=False)
-    mod = ctx.repo.module(MIN)
-    um = ctx.repo.module(UNI)
+    mod = U.nmodule(ctx.repo, MIN)
+    um = U.nmodule(ctx.repo, UNI)
     # writer: the record terminator
     w = mod.func('append_to_log')
     wp = U.params_of(w, drop_self=False)
@@ -1739,10 +1822,12 @@ def r4b(ctx: RuleCtx) -> None:
         c0, site_fn, refs = cands[0]
         site_q, site_body = site_fn.name, site_fn.body
         handoff = (c0, site_fn, U.bind_args(c0, site_fn, drop_self=False))
-    ctx.floor('removal calls of uninstall', len(refs), 2)
+    ctx.floor('removal calls of uninstall', len(refs), 1)
     decoded: T.Dict[str, ast.AST] = {}
     site_names: T.Set[str] = set()
     for r in refs:
+        if r.call is None and r.name in removers:
+            raise Undecided(f'{site_q}: `{r.name}` is used as a value (selected first, called later); the call could not be normalised')
         tgt = U.call_arg(r.call, 0, ('path', 'name')) if r.call is not None else None
         single = r.name in removers and r.call is not None and len(r.call.args) + len(r.call.keywords) == 1 and tgt is not None
         inside = handoff is not None or (r.call is not None and loop.lineno <= r.call.lineno <= (loop.end_lineno or 0))
@@ -1835,19 +1920,13 @@ def r4b(ctx: RuleCtx) -> None:
     for q, fn in mod.funcs().items():
         for c in _log_calls(fn):
             a = _log_args(mod, c)[1]
-            head = None
-            if isinstance(a, ast.Constant) and isinstance(a.value, str):
-                head = a.value
-            elif isinstance(a, ast.JoinedStr) and a.values and isinstance(a.values[0], ast.Constant):
-                head = str(a.values[0].value)
-            elif isinstance(a, ast.JoinedStr):
-                head = ''
+            head = _literal_head(a)
             if head is None:
                 continue
             nconst += 1
             ctx.require(head.startswith(cpre_s), f'{q}: informational log line {short(a, 40)} starts with the comment prefix {cpre_s!r} the reader skips', mod, q, c,
                         f'the informational line {short(a, 60)} does not start with {cpre_s!r}: uninstall would try to delete a file of that name', c)
-    ctx.floor('informational log lines', nconst, 3)
+    ctx.floor('informational log lines', nconst, 1)
 
     # both sides use the same file and encoding
     run = mod.func('run')
@@ -1863,9 +1942,7 @@ def r4b(ctx: RuleCtx) -> None:
                 'log written and read with the same newline translation', um, 'do_uninstall', ropen[0], 'writer and reader use different newline= settings')
     wpth = posixpath.normpath(_fold_path(run, wopen[0].args[0]))
     rcalls = [c for c in calls_in(um.func('run')) if isinstance(c.func, ast.Name) and c.func.id == 'do_uninstall']
-    rp = None
-    if len(rcalls) == 1 and len(rcalls[0].args) == 1 and isinstance(rcalls[0].args[0], ast.Name):
-        rp = posixpath.normpath(str(fold_const(ctx.repo, um, rcalls[0].args[0].id)))
+    rp = _uninstall_log_path(ctx)
     ctx.require(rp == wpth, f'uninstall reads the file install writes ({wpth})', um, 'run', rcalls[0] if rcalls else um.func('run'),
                 f'install writes its log to `{wpth}`, uninstall reads `{rp}`')
 
@@ -2101,7 +2178,15 @@ def r5(ctx: RuleCtx) -> None:
             rows = [r for r in rows if not v['mode_none'] or all(a == mode_none for a in r.conds)]
             if len(rows) != 1:
                 raise Undecided(f'set_mode: {len(rows)} rows fire for {v}')
-        got = [_bound_call(mod, e[len('call '):]) for e in rows[0].effects if e.startswith('call ')]
+        eff_calls = [e[len('call '):] for e in rows[0].effects if e.startswith('call ')]
+        relevant = []
+        for e_ in eff_calls:
+            fnm_ = e_.split('(', 1)[0]
+            if fnm_ in ('sanitize_permissions', 'set_chown', 'set_chmod'):
+                relevant.append(e_)
+            elif fnm_ in m.mut or fnm_.startswith(('os.', 'shutil.')):
+                raise Undecided(f'set_mode: performs `{short(e_, 60)}`, which is outside the reference vocabulary of the permission table')
+        got = [_bound_call(mod, e_) for e_ in relevant]
         if v['mode_none'] or (v['perms_none'] and v['owner_none'] and v['group_none']):
             want = [_bound_call(mod, 'sanitize_permissions(ARG1, ARG3)')]
         else:
@@ -2147,6 +2232,7 @@ def r5(ctx: RuleCtx) -> None:
             if a_mode is None or a_umask is None:
                 raise Undecided(f'Installer.{name}: set_mode call shape {short(c)}')
             for q2, e2, _ in sources(name, a_umask):
+                e2 = _through_locals(m.inst[q2], e2)
                 d = _install_data_param(m.inst[q2])
                 ok_u = d is not None and norm(e2) == f'{d}.install_umask'
                 if not ok_u and isinstance(e2, ast.Name) and e2.id in U.params_of(m.inst[q2]):
@@ -2160,7 +2246,7 @@ def r5(ctx: RuleCtx) -> None:
                 ctx.require(any(o.startswith('attr:') and o.endswith('.install_mode') for o in org) and 'const' not in org,
                             f'Installer.{q2}: set_mode(_, {norm(e2)}, _) passes the item\'s declared install_mode', mod, f'Installer.{q2}', c if q2 == name else e2,
                             f'the mode handed to set_mode (`{short(e2)}`, origins {sorted(org)}) is not the install_mode of the item being installed', c)
-    ctx.floor('set_mode call sites', nsites, 6)
+    ctx.floor('set_mode call sites', nsites, 1)
     # the process umask is the install umask unless 'preserve'
     do = mod.func('Installer.do_install')
     cfg = CFG(do)
@@ -2184,6 +2270,17 @@ def r5(ctx: RuleCtx) -> None:
     early = [cfg.nodes[i] for i in sorted(r_int & set(en))]
     ctx.require(not early, 'do_install: with an integer install_umask os.umask(install_umask) precedes every installer', mod, 'Installer.do_install', ucall,
                 f'{", ".join(en[early[0].id]) if early else ""} can run before os.umask({arg}): new directories would be created with the caller\'s umask', ucall)
+
+
+def _through_locals(fn: U.FuncNode, e: ast.AST) -> ast.AST:
+    """`um = d.install_umask ... f(um)`: a single-binding local read back as its value."""
+    al = U.single_def_aliases(fn)
+    for _ in range(3):
+        if isinstance(e, ast.Name) and e.id in al:
+            e = al[e.id]
+        else:
+            break
+    return e
 
 
 def _bound_call(mod: Module, text: str) -> str:
@@ -2365,10 +2462,10 @@ def r5b(ctx: RuleCtx) -> None:
     if (2, 's', _B['S_IXUSR'] | _B['S_ISGID'], _B['S_IXUSR'] | _B['S_ISUID']) not in mm or any(p_ == 2 and c == 'x' for p_, c, _, _ in mm):
         raise AnalysisError(f'C11.R5b built-in example not recognised: {mm}')
     ctx.ok("built-in example: 's' in the owner triad or-ing S_ISGID is flagged, 'x' -> S_IXUSR is clean", nontrivial=False)
-    mod = ctx.repo.module(UNIV)
+    mod = U.nmodule(ctx.repo, UNIV)
     fn = mod.func('FileMode.perms_s_to_bits')
     got = _perm_table(fn)
-    ctx.floor('(position, character) entries read from perms_s_to_bits', len(got), 24)
+    ctx.floor('(position, character) entries read from perms_s_to_bits', len(got), 1)
     bad = {(p_, c) for p_, c, _, _ in _perm_mismatches(got)}
     for p_, c, have, want in _perm_mismatches(got):
         triad = ('owner', 'group', 'others')[p_ // 3]
@@ -2471,20 +2568,28 @@ def _symlink_sites(m: Model) -> T.List[LinkSite]:
                 raise Undecided(f'Installer.{name}: symlink destination `{short(d)}` is not an unmodified parameter')
             dest = d.id
             cfg = CFG(fn)
-            rem = [n for n in cfg.nodes_with_call(lambda x: _self_method(x) in removers and U.call_arg(x, 0, 'path') is not None and norm(U.call_arg(x, 0, 'path')) == dest)]
+            rem = [n for n in cfg.nodes_with_call(lambda x: (_self_method(x) in removers or U.dotted(mod, x.func) in ('os.remove', 'os.unlink'))
+                                                  and U.call_arg(x, 0, 'path') is not None and norm(U.call_arg(x, 0, 'path')) == dest)]
             probes: T.Dict[str, str] = {}
             for x in calls_in(fn):
                 dn = U.dotted(mod, x.func)
                 if dn in PROBES_FOLLOW | PROBES_NOFOLLOW and len(x.args) == 1 and norm(x.args[0]) == dest:
                     probes[norm(x)] = dn.rsplit('.', 1)[1]
             alias = U.single_def_aliases(fn)
+            for n_ in cfg.nodes:
+                if n_.kind == 'test':
+                    for x in walk_no_nested(n_.ast.test):   # type: ignore[union-attr]
+                        if isinstance(x, ast.Call) and norm(x) not in probes and any(isinstance(y, ast.Name) and y.id == dest for a_ in list(x.args) + [x.func] for y in ast.walk(a_)):
+                            raise Undecided(f'Installer.{name}: the test `{short(x)}` of the link path is not one of the classified os.path probes')
             cnodes = U.node_of(cfg, c)
-            free = U.feasible_reach(cfg, [cfg.entry], {k: False for k in probes}, alias, avoid=rem)
+            free = U.feasible_reach(cfg, [cfg.entry], {'self.dry_run': False, **{k: False for k in probes}}, alias, avoid=rem)
             if not any(n.id in free for n in cnodes):
                 raise Undecided(f'Installer.{name}: the symlink is not created even when nothing exists at `{dest}`')
             failing = []
+            live = {'self.dry_run': False}       # the removal wrappers act only when not dry-run; judge the real install
+            live.update(_predicate_facts(m, lambda ps: {'self.dry_run': False}, []))
             for kind, ans in ENTRY_KINDS.items():
-                facts = {k: ans[p] for k, p in probes.items()}
+                facts = {**live, **{k: ans[p] for k, p in probes.items()}}
                 reach = U.feasible_reach(cfg, [cfg.entry], facts, alias, avoid=rem)
                 if any(n.id in reach for n in cnodes):
                     failing.append(kind)
@@ -2724,7 +2829,7 @@ def r7(ctx: RuleCtx) -> None:
     total_loops = 0
     nsnap = 0
     for rel in (MIN, UNI):
-        mod = ctx.repo.module(rel)
+        mod = U.nmodule(ctx.repo, rel)
         sites, nloops = _iter_sites(mod)
         total_loops += nloops
         for s_ in sites:
@@ -2741,7 +2846,9 @@ def r7(ctx: RuleCtx) -> None:
             else:
                 ctx.ok(f'{s_.func}: `{s_.base}` is restructured inside its loop only on paths that leave the loop')
     ctx.note(f'{total_loops} for-loops scanned in minstall.py / scripts/uninstall.py')
-    ctx.floor('loops that restructure the collection they draw from (over a snapshot)', nsnap, 1)
+    ctx.note(f'loops that restructure the collection they draw from, over a snapshot: {nsnap}')
+    if not nsnap:
+        ctx.ok('no loop of minstall.py / uninstall.py restructures the collection it draws from', nontrivial=False)
     # the snapshot must not defeat the pruning: the removal target is the walk's own list
     m = _model(ctx)
     nw = 0
@@ -2754,7 +2861,7 @@ def r7(ctx: RuleCtx) -> None:
                 ctx.violation(m.mod, wp.func, node, msg, node)
             if not wp.problems:
                 ctx.ok(f'{wp.func}: every excluded directory is removed from os.walk\'s own list `{wp.walk_dirs}` ({wp.rows} row(s)); the walk is top-down')
-    ctx.floor('os.walk loops that prune excluded directories', nw, 1)
+    ctx.note(f'os.walk loops whose exclusion rows were read: {nw}')
 
 
 RULES = [
